@@ -6,6 +6,7 @@ broadcast use vstd::std_specs::vec::axiom_vec_index_decreases;
 impl Clone for Location { #[verifier::external_body] fn clone(&self) -> (r: Self) ensures r == *self { unimplemented!() } }
 // lexer::Location derives PartialEq; needed only because the sliced `impl PartialEq for Identifier` mentions it (never called here)
 impl PartialEq for Location { #[verifier::external_body] fn eq(&self, other: &Self) -> bool { unimplemented!() } }
+impl vstd::std_specs::cmp::PartialEqSpecImpl for Location { open spec fn obeys_eq_spec() -> bool { false } open spec fn eq_spec(&self, other: &Self) -> bool { true } }
 #[verifier::external_body] pub struct Builtin { _p: u8 }
 #[verifier::external_body] pub struct Parameter { _p: u8 }
 #[verifier::external_body] pub struct Member { _p: u8 }
